@@ -48,7 +48,7 @@ COMPONENTS = {"real": ["smpl_extract (whole tool)", "construct", "numpy"],
               "stub": ["SimFile / virtual FS with rot, cut and EIO faults", "sandboxed output", "each scenario in a forked child under RLIMIT_AS / RLIMIT_CPU"]}
 ASSUMPTIONS = ["step clock = sys.monitoring PY_START+JUMP; C-level loops are bounded by the CPU backstop only (class cpu_backstop)",
                "bounds are relative to the clean arm of the same image with >= 20x margin", "1 in 25 runs is repeated through the real CLI under RLIMIT_CPU/RLIMIT_AS"]
-EXPECTED_PROBES = ["random_bytes", "akai", "roland", "cdda", "fault_sat_word", "fault_fat_word", "fault_count_field", "fault_pointer", "fault_size_field",
+EXPECTED_PROBES = ["random_bytes", "akai", "roland", "cdda", "cue_long_title", "fault_sat_word", "fault_fat_word", "fault_count_field", "fault_pointer", "fault_size_field",
                    "fault_keygroup", "fault_cue_line", "fault_uniform_rot", "fault_cut", "fault_eio", "rot_read", "ended_with_error", "ended_ok", "cli_crosscheck"]
 SHRINK = {"max_attempts": 80, "max_seconds": 150.0, "simple_values": {"policy": ["contiguous"]}}
 CLI_EVERY = 25
@@ -196,7 +196,7 @@ def _fault_values(rng: random.Random, kind: str, width: int, img: bytes, off: in
 def _cue_faults(rng: random.Random, text: str) -> str:
     lines = text.split("\n")
     for _ in range(rng.randint(1, 3)):
-        k = weighted(rng, [("drop", 3), ("dup", 2), ("huge", 3), ("nofile", 1), ("garbage", 2), ("mode", 2), ("binary", 1), ("many", 1), ("blank", 4), ("longfile", 2)])
+        k = weighted(rng, [("drop", 3), ("dup", 2), ("huge", 3), ("nofile", 1), ("garbage", 2), ("mode", 2), ("binary", 1), ("many", 1), ("blank", 4), ("longfile", 2), ("longtitle", 3)])
         i = rng.randrange(len(lines)) if lines else 0
         if k == "drop" and lines:
             del lines[i]
@@ -226,6 +226,18 @@ def _cue_faults(rng: random.Random, text: str) -> str:
             nm = "".join(rng.choice("abcdefghijklmnopqrstuvwxyz0123456789_-") for _ in range(rng.randint(24, 31)))
             tail = rng.choice(["WAVE", "BINARX", "MP3", "", "BINAR"])
             lines = [('FILE "%s.bin" %s' % (nm, tail)) if l.strip().upper().startswith("FILE") else l for l in lines]
+        elif k == "longtitle":
+            # a TITLE that is mostly one repeated separator character: name sanitising must stay proportional to its length
+            run = rng.choice([" ", " ", " ", " ", ".", "-", "- ", " .", "_"]) * rng.choice([300, 3000, 4000])
+            title = '    TITLE "%s%s%s"' % (rng.choice(["a", "a", "Kick"]), run, rng.choice(["b", "b", "L", ".", "x."]))
+            tl = [j for j, l in enumerate(lines) if l.strip().upper().startswith("TITLE")]
+            tr = [j for j, l in enumerate(lines) if l.strip().upper().startswith("TRACK")]
+            if tl and rng.random() < 0.6:
+                lines[rng.choice(tl)] = title
+            elif tr:
+                lines.insert(rng.choice(tr) + 1, title)
+            else:
+                lines.insert(i, title)
         elif k == "binary":
             lines.insert(i, "\x00\x01\x02")
         elif k == "many":
@@ -571,6 +583,8 @@ def run(sc: dict) -> RunResult:
                "cut": "fault_cut", "eio": "fault_eio"}.get(k)
         if key:
             res.probes[key] += 1
+    if any(len(l) > 280 and l.strip().upper().startswith("TITLE") for l in sc.get("cue", "").split("\n")):
+        res.probes["cue_long_title"] += 1
     if rep["rot_hit"]:
         res.probes["rot_read"] += 1
         res.faults["rot"] += 1
